@@ -10,7 +10,15 @@ values, and `oracle_scrypt` / `oracle_aes` cases compare them on every run with 
 scrypt_hash and Crypto.Cipher.AES.
 
 prop_check is an independent BIP38 written here from the BIP text (own AES-256, secp256k1, Base58, hashlib
-SHA-256 / RIPEMD-160 / scrypt); it judges the implementation's answer from the request line alone."""
+SHA-256 / RIPEMD-160 / scrypt); it judges the implementation's answer from the request line alone.
+Second, independent judge: for every enc / dec / inter request the extracted Gallina model OF THE BIP TEXT
+(spec_encrypt / spec_decrypt / spec_intermediate, request prefix "spec_") is evaluated too, fed by the same oracle
+protocol with hashlib.scrypt / FIPS-197 AES values on the SPEC's passphrase bytes (UTF-8 of the NFC-normalised text;
+a bytes argument as it is).  Its answer must equal the Python judge's; the implementation is compared with both.
+Neither judge calls anything of /repo.
+
+Passphrase ARGUMENT in a request: "<hex utf8 as written> <hex utf8 of the NFC form>" for a str,
+"b:<hex> <hex>" for a bytes object."""
 import hashlib, json, os, threading, unicodedata
 from concurrent.futures import ThreadPoolExecutor
 import core
@@ -33,13 +41,22 @@ ASSUMPTIONS = [
     'Base58 facts (change_base(base58encode(x)) = x for the 43/53-byte payloads; a 43-byte payload starting 01 42/43 is written as 58 '
     'characters starting 6P) and the curve facts (k*G finite; (a*b mod n)*G = b*(a*G) on serialised points; 33-byte compressed points) '
     'are visible premises of the theorems, not proved here',
+    'agreement WITH THE BIP is judged twice, by a Python BIP38 written in harness/props/c15.py and by the extracted Gallina spec_* '
+    'functions, both fed with hashlib.scrypt / FIPS-197 AES on the NFC-normalised UTF-8 passphrase; nothing of /repo is called by a judge',
     'PARTIAL: "fresh" is a statement about the OS entropy source; modelled and proved is which os.urandom draw each '
     'generating call consumes (process model), validated by replacing os.urandom with a counting stream before import',
 ]
 RULE = ('corpus: the published BIP38 vectors (4 plain, 1 unicode, 4 EC-multiplied); structured streams: keys incl. 1, n-1 and '
         'leading-zero secrets x compressed x 11 networks x passphrases (ASCII, empty, Greek, NFC/NFD pairs) for encrypt, '
         'decrypt (right / wrong passphrase, right / wrong / no network), intermediate codes (lot/sequence boundaries), '
-        'new EC-multiplied keys and their decryption; malformed stream: every flag byte, unknown identifiers, bad characters, '
+        'new EC-multiplied keys and their decryption; adversarial passphrase stream (text that looks like hexadecimal, even / odd '
+        'length, with blanks, upper / lower case; digits only; blank-only; empty; NUL bytes; 63 / 64 / 65 and thousands of bytes; '
+        'non-ASCII NFC-stable and NFC-unstable; str and bytes arguments) through Key.encrypt, Key(enc, password=), HDKey, '
+        'bip38_encrypt, bip38_decrypt, bip38_intermediate_password -> bip38_create_new_encrypted_wif -> Key(enc, password=), plain and '
+        'EC-multiplied, compressed and not, with and without lot/sequence, every ciphertext being built by the judge (never by the '
+        'library) and decrypted with the right passphrase and with DIFFERENT passphrases a library might conflate with it (hex text vs '
+        'the bytes it spells, case, leading / trailing blanks, NUL truncation, prefix, hex of the bytes, NFKC); '
+        'malformed stream: every flag byte, unknown identifiers, bad characters, '
         'wrong lengths, checksum failures, bad intermediate codes; entropy histories of 2..5 generating calls in a fresh '
         'interpreter with a counting os.urandom; a case is non-trivial when the implementation returns a value; distinct by request')
 
@@ -277,6 +294,14 @@ def ref_encrypt(pfx, c, k, pw):
     return b58check(b'\x01\x42' + bytes([0xe0 if c else 0xc0]) + ah + e1 + e2)
 
 
+def ref_encrypt_raw(priv, addr, pw, flag):
+    """the BIP's plain-mode steps 2-6 for a caller-supplied address string and flag byte (bip38_encrypt called directly)"""
+    ah = sha256d(addr)[:4]
+    dk = SC(pw, ah, 16384, 8, 8, 64)
+    d1, d2 = dk[:32], dk[32:]
+    return b58check(b'\x01\x42' + bytes([flag]) + ah + aes_enc(d2, xor(priv[:16], d1[:16])) + aes_enc(d2, xor(priv[16:], d1[16:])))
+
+
 def ref_decrypt(s, pw, pfx, strict=True, trace=False):
     """-> (secret, compressed, lot, sequence) or None.  strict=False skips the Base58Check checksum and accepts any
     flag byte (compressed = bit 0x20, lot/sequence = bit 0x04): used only to recognise 'laxer than the BIP' answers."""
@@ -399,8 +424,23 @@ def unhx(s):
     return b'' if s == '-' else bytes.fromhex(s)
 
 
-def pwtok(text):
-    return hx(text.encode('utf-8')) + ' ' + hx(nfc_bytes(text))
+def pwtok(pv):
+    """request tokens of a passphrase ARGUMENT: a str (as written + NFC form) or a bytes object"""
+    if isinstance(pv, bytes):
+        return 'b:' + hx(pv) + ' ' + hx(pv)
+    return hx(pv.encode('utf-8')) + ' ' + hx(nfc_bytes(pv))
+
+
+def spec_bytes(pv):
+    """what the BIP hands to scrypt for this argument"""
+    return pv if isinstance(pv, bytes) else nfc_bytes(pv)
+
+
+def pw_parts(pwr, pwn):
+    """-> (is a bytes object, bytes as written, bytes the BIP prescribes)"""
+    if pwr.startswith('b:'):
+        return True, unhx(pwr[2:]), unhx(pwr[2:])
+    return False, unhx(pwr), unhx(pwn)
 
 
 def shex(s):
@@ -458,6 +498,111 @@ def rand_pass(rng):
     if m == 3:
         return ''.join(chr(rng.choice([0x3b1, 0x3a9, 0x4e2d, 0x1f600, 0x10400, 0x41, 0x20])) for _ in range(rng.randrange(1, 10)))
     return 'pw%d' % rng.getrandbits(40)
+
+
+# ---------------------------------------------------------------- adversarial passphrase arguments
+# The step "passphrase argument -> bytes handed to scrypt" must be: str -> UTF-8 of the NFC form, bytes -> as they are.
+# Every group below is a way an implementation can get that step wrong while its own round trips keep working.
+ADV = {
+    'hex_even': ['123456', 'cafebabe', '7e57', 'dead beef', 'CAFEBABE', 'DeadBeef', '00', 'ff', '0000', '12 34', ' 12', '12 ',
+                 'ab\tcd', 'e0', '1234567890', 'deadbeef' * 8, '00' * 32, 'Ab' * 33],
+    'hex_odd': ['123', 'abc', 'f', 'abcde', '12345', '0', 'dead bee', '1 2', 'cafebab'],
+    'hex_near': ['0x1234', '12345g', 'cafe-babe', '#c0ffee', '12:34:56', 'deadbeefh'],
+    'digits': ['000000', '42', '9', '0123456789' * 2, '1e3', '-1', '0.5'],
+    'blank': ['', ' ', '  ', '\t', '\n', '\r\n', ' \t ', '\u00a0', '\u3000'],
+    'nul': ['\x00', 'a\x00b', 'pass\x00', '\x00pass', '\x00\x00', 'pass\x00word'],
+    'long': ['a' * 63, 'a' * 64, 'a' * 65, 'ab' * 500, 'x' * 4096, '\u00e9' * 300, 'f' * 127, ' ' * 70],
+    'ascii': ['p', 'Satoshi', 'TestingOneTwoThree', 'correct horse battery staple', 'Pass Word', 'UPPER', 'lower', '~!@#$%^&*()_+'],
+    'uni_stable': ['ΜΟΛΩΝ ΛΑΒΕ', '密码\U0001f511', 'caf\u00e9', '\u00c5ngstr\u00f6m', '\u00df', '\u0130stanbul', '\U0001f600', 'пароль',
+                   '\u00ff', '\u0100', '\u00e9\u00e9', '\ufb01', '\u00bd', '\U00010400', '\u0646\u0635'],
+    'uni_unstable': ['e\u0301', 'cafe\u0301', '\u212b', '\u2126', '\u1e9b\u0323', '\u1100\u1161', 'ϓ\u0000\U00010400\U0001f4a9',
+                     'A\u030angstro\u0308m', '\u0344', 'q\u0323\u0307'],
+    'bytes': [b'123456', b'\x124V', b'\xca\xfe\xba\xbe', b'cafebabe', b'', b'\x00', b'\xff\xfe\xfd', b'pass', b'e\xcc\x81', b' ',
+              b'dead beef', b'\xc3\xa9', b'\xe9', b'a' * 65, b'7e57'],
+}
+# always present in the quick tier (the rest is sampled)
+ADV_CORE = ['123456', 'cafebabe', 'dead beef', 'CAFEBABE', '00', '12 ', 'deadbeef' * 8, '123', '0x1234', '000000', '', ' ', '\x00',
+            'pass\x00word', 'a' * 65, 'ab' * 500, 'Pass Word', 'caf\u00e9', '\u00ff', 'e\u0301', '\u212b', b'123456', b'\x124V', b'', b'\xff\xfe\xfd',
+            b'e\xcc\x81']
+
+
+def _dedup(vals, pv):
+    out, seen = [], {spec_bytes(pv)}
+    for v in vals:
+        if v is None:
+            continue
+        sb = spec_bytes(v)
+        if sb in seen or (isinstance(v, str) and nfc_bytes(v) != v.encode('utf-8')):
+            continue            # same passphrase per the BIP, or itself in the recorded class passphrase_not_nfc
+        seen.add(sb)
+        out.append(v)
+    return out
+
+
+def aliases(pv):
+    """Passphrase arguments that are DIFFERENT from pv per the BIP (different scrypt input) but that an implementation
+    with a wrong argument -> bytes step may treat as the same.  Most promising first."""
+    if isinstance(pv, bytes):
+        t = None
+        try:
+            t = pv.decode('utf-8')
+        except UnicodeDecodeError:
+            pass
+        vals = []
+        if t is not None:
+            try:
+                vals.append(bytes.fromhex(t))
+            except ValueError:
+                pass
+        vals += [pv.hex().encode(), pv.hex(), pv + b' ', pv.upper(), pv.lower(), pv.strip(), pv.rstrip(b'\0'), pv.split(b'\0')[0],
+                 pv.decode('latin-1'), pv[:-1], pv + b'\n', pv[:64], pv[:72]]
+        return _dedup(vals, pv)
+    vals = []
+    try:
+        raw = bytes.fromhex(pv)
+        vals.append(raw)                                   # the bytes a hex-looking text spells
+        try:
+            vals.append(raw.decode('utf-8'))               # and the text with that encoding
+        except UnicodeDecodeError:
+            vals.append(raw.decode('latin-1'))
+    except ValueError:
+        pass
+    vals += [pv + ' ', pv.swapcase(), pv.upper(), pv.lower(), ' ' + pv, pv.strip(), pv.replace(' ', ''), pv.split('\x00')[0], pv.rstrip('\x00'),
+             pv.encode('utf-8').hex(), pv.encode('utf-8').hex().encode(), pv[:-1], pv + '\n', pv.casefold(),
+             unicodedata.normalize('NFKC', pv), unicodedata.normalize('NFKD', pv), pv[:64], pv[:72], pv[:255]]
+    try:
+        vals.append(pv.encode('latin-1'))                  # bytes of another codec
+    except UnicodeEncodeError:
+        pass
+    try:
+        vals.append(pv.encode('utf-8').decode('latin-1'))  # mojibake
+    except UnicodeDecodeError:
+        pass
+    return _dedup(vals, pv)
+
+
+def adv_pick(rng, big):
+    """the adversarial passphrase arguments of this run, with their group"""
+    group = {v: g for g, vs in ADV.items() for v in vs}
+    if big:
+        out = [(v, g) for g, vs in ADV.items() for v in vs]
+        for _ in range(40):             # random members of the hex-looking family
+            n = rng.randrange(1, 20)
+            t = ''.join(rng.choice('0123456789abcdefABCDEF') for _ in range(n))
+            if rng.random() < 0.3:
+                i = rng.randrange(len(t) + 1)
+                t = t[:i] + ' ' + t[i:]
+            out.append((t, 'hex_rand'))
+        return out
+    out = [(v, group[v]) for v in ADV_CORE]
+    for g, vs in ADV.items():
+        rest = [v for v in vs if v not in ADV_CORE]
+        if rest:
+            out.append((rng.choice(rest), g))
+    for _ in range(3):
+        n = 2 * rng.randrange(1, 9)
+        out.append((''.join(rng.choice('0123456789abcdefABCDEF') for _ in range(n)), 'hex_rand'))
+    return out
 
 
 def gen_cases(rng, tier):
@@ -637,6 +782,69 @@ def gen_cases(rng, tier):
     for _ in range(1500 if big else 30):
         add('new', 'new %s %s %s %d %s' % ('bitcoin', '00', shex(good_ip), rng.randrange(2), rng.randbytes(24).hex()))
 
+    # ---- adversarial passphrase arguments through every entry point; every ciphertext is built by the judge
+    advs = adv_pick(rng, big)
+    n_alias = 99 if big else 2
+    kf_cycle = ['hex', 'int', 'bytes', 'hdkey']
+    for i, (pv, grp) in enumerate(advs):
+        k = rand_secret(rng) if i % 3 else [1, CN - 1, 0xabcdef][(i // 3) % 3]
+        c = bool(i % 2)
+        nw = 'bitcoin' if i % 4 else names[(i // 4) % len(names)]
+        kfmt = kf_cycle[i % 4]
+        al = aliases(pv)
+        if not big and len(al) > n_alias:       # the most promising one + a random other one
+            al = [al[0], rng.choice(al[1:])]
+
+        def build_plain(pv=pv, grp=grp, k=k, c=c, nw=nw, kfmt=kfmt, al=al, i=i):
+            out = [Case('adv_enc:' + grp, enc_req(kfmt, k, c, nw, pv))]
+            e = ref_encrypt(nws[nw], c, k, spec_bytes(pv))
+            out.append(Case('adv_dec_right:' + grp, dec_req('hdkey' if i % 5 == 4 else 'key', e, nw if i % 3 else None if nws[nw] == b'\x00' else nw, pv)))
+            if i % 3 == 0 or big:
+                out.append(Case('adv_decinfo:' + grp, 'decinfo %s %s' % (shex(e), pwtok(pv))))
+            if i % 4 == 1 or big:
+                addr = ref_address(nws[nw], c, k).encode()
+                out.append(Case('adv_encfn:' + grp, 'encfn %064x %s %s %s %s' % (k, 'sb'[(i // 4) % 2], hx(addr),
+                                                                           ('e0' if c else 'c0') if (i // 8) % 2 == 0 or not c else 'def', pwtok(pv))))
+            for a in al:
+                # a ciphertext made for pv, opened with a different passphrase; and the reverse direction
+                out.append(Case('adv_dec_alias:' + grp, dec_req('key', e, nw, a)))
+            if al and (i % 2 == 0 or big):
+                e2 = ref_encrypt(nws[nw], c, k, spec_bytes(al[0]))
+                out.append(Case('adv_dec_alias_rev:' + grp, dec_req('key', e2, nw, pv)))
+            return out
+        heavy.append(build_plain)
+
+    # EC-multiplied: intermediate code for the argument -> new keys (judge-built code) -> decrypt (judge-built keys)
+    ec_core = ['123456', 'cafebabe', 'dead beef', 'CAFEBABE', '12 ', 'deadbeef' * 8, '', ' ', 'pass\x00word', 'caf\u00e9', 'e\u0301', b'123456', b'\x124V']
+    ec_advs = advs if big else [x for j, x in enumerate(advs) if x[0] in ec_core or j % 9 == 4]
+    for i, (pv, grp) in enumerate(ec_advs):
+        ls = i % 2 == 0
+        lot = [100000, 999999, 567890, 262144][(i // 2) % 4] if ls else None
+        seq = [1, 4095, 2049, 17][(i // 2) % 4] if ls else None
+        salt = rng.randbytes(4 if ls and i % 4 == 0 else 8)
+        seeds = [rng.randbytes(24), rng.randbytes(24)]
+        al = aliases(pv)
+        if not big and len(al) > 1:
+            al = [al[0]] if i % 2 else [rng.choice(al)]
+
+        def build_ec(pv=pv, grp=grp, lot=lot, seq=seq, salt=salt, seeds=seeds, al=al, i=i):
+            out = [Case('adv_inter:' + grp, inter_req(pv, lot, seq, salt))]
+            ip = ref_intermediate(spec_bytes(pv), lot, seq, salt)
+            for j, seed in enumerate(seeds):
+                c = bool((i + j) % 2)
+                out.append(Case('adv_new:' + grp, 'new bitcoin 00 %s %d %s' % (shex(ip), 1 if c else 0, hx(seed))))
+                wif = ref_create_new(ip, c, seed, b'\x00')[0]
+                if j == 0:
+                    out.append(Case('adv_ec_dec_right:' + grp, dec_req('hdkey' if i % 5 == 2 else 'key', wif, 'bitcoin' if i % 2 else None, pv)))
+                    for a in al:
+                        out.append(Case('adv_ec_dec_alias:' + grp, dec_req('key', wif, 'bitcoin', a)))
+                elif i % 2 == 0 or big:
+                    out.append(Case('adv_ec_decinfo:' + grp, 'decinfo %s %s' % (shex(wif), pwtok(pv))))
+                else:
+                    out.append(Case('adv_ec_dec_right:' + grp, dec_req('key', wif, 'bitcoin', pv)))
+            return out
+        heavy.append(build_ec)
+
     with ThreadPoolExecutor(12) as ex:
         for out in ex.map(lambda f: f(), heavy):
             cs.extend(out)
@@ -665,17 +873,19 @@ def _preseed(req):
     t = req.split(' ')
     _REC.log = log = []
     try:
-        if t[0] == 'enc':
-            for pw in {t[6], t[7]}:
-                ref_encrypt(unhx(t[5]), t[3] == '1', int(t[2]), unhx(pw))
-        elif t[0] == 'dec':
-            for pw in {t[5], t[6]}:
-                ref_decrypt(_text(t[2]), unhx(pw), unhx(t[4]), strict=False, trace=True)
+        if t[0] in ('enc', 'spec_enc'):
+            for pw in set(pw_parts(t[6], t[7])[1:]):
+                ref_encrypt(unhx(t[5]), t[3] == '1', int(t[2]), pw)
+        elif t[0] in ('dec', 'spec_dec'):
+            for pw in set(pw_parts(t[5], t[6])[1:]):
+                ref_decrypt(_text(t[2]), pw, unhx(t[4]), strict=False, trace=True)
         elif t[0] == 'decinfo':
-            for pw in {t[2], t[3]}:
-                ref_decrypt(_text(t[1]), unhx(pw), b'\x00', strict=False, trace=True)
-        elif t[0] == 'inter':
-            ref_intermediate(unhx(t[2]), None if t[3] == '-' else int(t[3]), None if t[4] == '-' else int(t[4]), unhx(t[5]))
+            for pw in set(pw_parts(t[2], t[3])[1:]):
+                ref_decrypt(_text(t[1]), pw, b'\x00', strict=False, trace=True)
+        elif t[0] == 'encfn':
+            ref_encrypt_raw(unhx(t[1]), unhx(t[3]), pw_parts(t[5], t[6])[1], 0xe0 if t[4] == 'def' else int(t[4], 16))
+        elif t[0] in ('inter', 'spec_inter'):
+            ref_intermediate(pw_parts(t[1], t[2])[2], None if t[3] == '-' else int(t[3]), None if t[4] == '-' else int(t[4]), unhx(t[5]))
         elif t[0] == 'new':
             ref_create_new(_text(t[3]), t[4] == '1', unhx(t[5]), unhx(t[2]))
     except Exception:
@@ -691,19 +901,58 @@ def _preseed(req):
     return out
 
 
+_OUT = {}          # request -> answer of the extracted model once all its oracle queries are in the table
+_TWIN = ('enc ', 'dec ', 'inter ')
+
+
+def twin_of(req):
+    """the request that evaluates the extracted Gallina model OF THE BIP TEXT on the same arguments, or None"""
+    if not req.startswith(_TWIN):
+        return None
+    t = req.split(' ')
+    if t[0] == 'dec':
+        txt = _text(t[2])
+        if len(txt) != 58 or any(ch not in B58 for ch in txt):
+            return None         # the BIP speaks about Base58Check strings of 43 bytes; anything else is judged by ref_decrypt alone
+    if t[0] == 'inter' and (t[3] == '-') != (t[4] == '-'):
+        return None
+    return 'spec_' + req
+
+
+def _run_driver_par(exe, lines, nproc=8):
+    if len(lines) < 64:
+        rc, outs, err = core.run_driver(exe, lines)
+        return outs if len(outs) == len(lines) else None, err
+    n = min(nproc, len(lines) // 32)
+    chunks = [lines[i::n] for i in range(n)]
+    with ThreadPoolExecutor(n) as ex:
+        rs = list(ex.map(lambda ch: core.run_driver(exe, ch), chunks))
+    outs = [None] * len(lines)
+    for w, (rc, o, err) in enumerate(rs):
+        if len(o) != len(chunks[w]):
+            return None, err
+        for j, x in enumerate(o):
+            outs[w + j * n] = x
+    return outs, ''
+
+
 def _resolve(reqs):
     exe, out = core.build_driver(DRIVER)
     if exe is None:
         raise RuntimeError('driver build failed: ' + out[-300:])
-    todo = [r for r in reqs if r not in _TABLE]
+    todo = []
+    for r in reqs:
+        for q in (r, twin_of(r)):
+            if q is not None and q not in _TABLE and q not in todo:
+                todo.append(q)
     with ThreadPoolExecutor(12) as ex:
         tabs = dict(zip(todo, ex.map(_preseed, todo)))
     for _ in range(10):
         if not todo:
             break
         lines = [r + ' | ' + ' '.join(tabs[r]) if tabs[r] else r for r in todo]
-        rc, outs, err = core.run_driver(exe, lines)
-        if len(outs) != len(todo):
+        outs, err = _run_driver_par(exe, lines)
+        if outs is None:
             raise RuntimeError('driver failed while resolving oracle queries: ' + err[-300:])
         miss = {}
         for r, o in zip(todo, outs):
@@ -711,6 +960,7 @@ def _resolve(reqs):
                 miss[r] = o[len('ORACLE-MISS '):]
             else:
                 _TABLE[r] = tabs[r]
+                _OUT[r] = o
         qs = sorted(set(miss.values()))
         with ThreadPoolExecutor(12) as ex:
             ans = dict(zip(qs, ex.map(_answer, qs)))
@@ -718,6 +968,7 @@ def _resolve(reqs):
         for r, q in miss.items():
             if ans[q] is None:
                 _TABLE[r] = tabs[r]         # a query outside the oracle's domain stays a miss (reported by the diff)
+                _OUT[r] = 'ORACLE-MISS ' + q
             else:
                 tabs[r].append(q + ':' + ans[q])
                 todo.append(r)
@@ -754,10 +1005,10 @@ def _class(c):
     k = t[0]
     if k in ('enc', 'dec') and t[1] == 'hdkeydef':
         return 'hdkey_default_witness'
-    if k in ('enc', 'dec') and t[-2] != t[-1]:
-        return 'passphrase_not_nfc'
-    if k == 'decinfo' and t[2] != t[3]:
-        return 'passphrase_not_nfc'
+    if k in ('enc', 'dec', 'decinfo', 'encfn'):
+        isb, raw, nfcb = pw_parts(t[-2], t[-1])
+        if not isb and raw != nfcb:
+            return 'passphrase_not_nfc'
     if k == 'dec':
         d = b58dec(_text(t[2]))
         if d is not None and d[:2] == b'\x01\x43' and unhx(t[4]) != b'\x00':
@@ -767,6 +1018,24 @@ def _class(c):
     return None
 
 
+def _spec_model(c, expected):
+    """The second judge: the extracted Gallina model of the BIP text must give [expected] for this request.
+    -> None (agrees / not applicable) or a message."""
+    tw = twin_of(c.req)
+    if tw is None:
+        return None
+    if tw not in _OUT:
+        try:
+            _resolve([c.req])
+        except Exception as e:
+            return 'the Gallina model of the BIP text could not be evaluated: %s' % str(e)[:120]
+    got = _OUT.get(tw)
+    if got == expected:
+        return None
+    return ('the two specification judges disagree (Python BIP38: %s, extracted Gallina spec_*: %s); the implementation answered'
+            % (expected[:90], (got or '?')[:90]))
+
+
 def prop_check(c, out):
     t = c.req.split(' ')
     k = t[0]
@@ -774,39 +1043,64 @@ def prop_check(c, out):
         return 'unexpected answer %r' % out[:160]
     if k == 'enc':
         _, kfmt, sec, cc, nw, pfx, pwr, pwn = t
-        exp = 'OK ' + ref_encrypt(unhx(pfx), cc == '1', int(sec), unhx(pwn))
-        return None if out == exp else 'Key(%s).encrypt gives %s, BIP38 gives %s' % (sec, out, exp)
+        isb, raw, sb = pw_parts(pwr, pwn)
+        exp = 'OK ' + ref_encrypt(unhx(pfx), cc == '1', int(sec), sb)
+        dis = _spec_model(c, exp)
+        if dis:
+            return dis + ' ' + out
+        return None if out == exp else 'Key(%s).encrypt(%s) gives %s, BIP38 (passphrase bytes %s) gives %s' % (
+            sec, _show_pw(pwr), out, hx(sb)[:80], exp)
+    if k == 'encfn':
+        _, priv, akind, addr, fl, pwr, pwn = t
+        isb, raw, sb = pw_parts(pwr, pwn)
+        exp = 'OK ' + ref_encrypt_raw(unhx(priv), unhx(addr), sb, 0xe0 if fl == 'def' else int(fl, 16))
+        return None if out == exp else 'bip38_encrypt(%s, %s, %s) gives %s, BIP38 (passphrase bytes %s) gives %s' % (
+            priv, unhx(addr).decode(), _show_pw(pwr), out, hx(sb)[:80], exp)
     if k == 'dec':
         _, cls, s, nw, pfx, pwr, pwn = t
+        isb, raw, sb = pw_parts(pwr, pwn)
         s = _text(s)
-        r = ref_decrypt(s, unhx(pwn), unhx(pfx), strict=True)
+        r = ref_decrypt(s, sb, unhx(pfx), strict=True)
+        dis = _spec_model(c, 'NONE' if r is None else 'OK %d %d' % (r[0], 1 if r[1] else 0))
+        if dis:
+            return dis + ' ' + out
         if r is not None:
             exp = 'OK %d %d' % (r[0], 1 if r[1] else 0)
-            return None if out == exp else 'BIP38 decryption of %s gives %s, the implementation %s' % (s, exp, out)
+            return None if out == exp else 'BIP38 decryption of %s with passphrase %s gives %s, the implementation %s' % (s, _show_pw(pwr), exp, out)
         if not out.startswith('OK'):
             return None
-        lax = ref_decrypt(s, unhx(pwn), unhx(pfx), strict=False)
+        lax = ref_decrypt(s, sb, unhx(pfx), strict=False)
         if lax is not None and out == 'OK %d %d' % (lax[0], 1 if lax[1] else 0):
             return None     # laxer than the BIP (checksum / flag byte not verified) but the right key: observation only
-        return 'decryption must fail (wrong passphrase / network / corrupted key) but returned %s' % out
+        return 'decryption of %s with passphrase %s must fail (wrong passphrase / network / corrupted key) but returned %s' % (s, _show_pw(pwr), out)
     if k == 'decinfo':
         s = _text(t[1])
-        r = ref_decrypt(s, unhx(t[3]), b'\x00', strict=True)
+        isb, raw, sb = pw_parts(t[2], t[3])
+        r = ref_decrypt(s, sb, b'\x00', strict=True)
         if r is None:
-            return None if not out.startswith('OK') else 'bip38_decrypt must fail but returned %s' % out[:80]
+            if d_is_ec(s):
+                return None if not out.startswith('OK') else 'bip38_decrypt must fail but returned %s' % out[:80]
+            return None         # plain mode: the low-level function returns unchecked bytes by design (checked in Key(...))
         o = lambda v: '-' if v is None else str(v)
         f = out.split(' ')
         if d_is_ec(s):
             exp = ['OK', '%064x' % r[0], None, '1' if r[1] else '0', o(r[2]), o(r[3])]
             ok = len(f) == 7 and all(e is None or e == g for e, g in zip(exp, f))
             return None if ok else 'bip38_decrypt gives %s, BIP38 gives key/compressed/lot/sequence %s' % (out, exp)
-        return None
+        exp = ['OK', '%064x' % r[0], hx(b58dec(s)[3:7]), '1' if r[1] else '0', '-', '-', '-']
+        return None if f == exp else 'bip38_decrypt(%s, %s) gives %s, BIP38 gives %s' % (s, _show_pw(t[2]), out, ' '.join(exp))
     if k == 'inter':
         _, pwr, pwn, lot, sq, salt = t
-        r = ref_intermediate(unhx(pwn), None if lot == '-' else int(lot), None if sq == '-' else int(sq), unhx(salt))
+        isb, raw, sb = pw_parts(pwr, pwn)
+        r = ref_intermediate(sb, None if lot == '-' else int(lot), None if sq == '-' else int(sq), unhx(salt))
+        dis = _spec_model(c, 'NONE' if r is None else 'OK ' + r)
+        if dis:
+            return dis + ' ' + out
         if r is None:
             return None if out.startswith('ERR') else 'invalid arguments accepted: %s' % out
-        return None if out == 'OK ' + r else 'intermediate code %s, BIP38 gives %s' % (out, r)
+        if isb and out == 'ERR type':
+            return None         # the passphrase parameter is documented as str; refusing a bytes object is not a wrong result
+        return None if out == 'OK ' + r else 'intermediate code for passphrase %s: %s, BIP38 gives %s' % (_show_pw(pwr), out, r)
     if k == 'new':
         _, nw, pfx, ip, cc, seed = t
         r = ref_create_new(_text(ip), cc == '1', unhx(seed), unhx(pfx))
@@ -836,6 +1130,16 @@ def prop_check(c, out):
                     return 'calls %d and %d generated the same key' % (j + 1, i + 1)
         return None
     return None
+
+
+def _show_pw(tok):
+    isb, raw, _ = pw_parts(tok, tok)
+    if isb:
+        return repr(raw)[:60]
+    try:
+        return repr(raw.decode('utf-8'))[:60]
+    except UnicodeDecodeError:
+        return repr(raw)[:60]
 
 
 def d_is_ec(s):
